@@ -35,8 +35,11 @@ type e2eSpec struct {
 	Group int    `json:"group"` // specs with the same non-zero group share one listener and run concurrently
 	// WindowMS > 0: the transfer is observed for that long and then abandoned (bytes moved within the window are
 	// compared with the bound); CloseAtMS > 0: the proxy's listeners are closed at that time, the transfer goes on
-	WindowMS  int `json:"window_ms,omitempty"`
-	CloseAtMS int `json:"close_at_ms,omitempty"`
+	// ProxyProto: the listener also expects a PROXY protocol header (--proxy-protocol-listener): the client sends a
+	// v1 header first; the limits must hold for the stacked listener as well
+	ProxyProto bool `json:"proxy_protocol,omitempty"`
+	WindowMS   int  `json:"window_ms,omitempty"`
+	CloseAtMS  int  `json:"close_at_ms,omitempty"`
 }
 
 type e2eResult struct {
@@ -120,6 +123,15 @@ func e2ePlan(tier string) []e2eSpec {
 	add("down", "tunnel", parse("2M"), parse("off"), 3, 2, 0)
 	add("up", "tunnel", parse("off"), parse("2M"), 3, 2, 0)
 	add("down", "plain", parse("off"), parse("off"), 1, 0, 0)
+	// the PROXY-protocol listener stacked with the limits
+	for _, x := range []struct {
+		dir, mode string
+		rl, wl    int64
+		conns     int
+	}{{"down", "plain", 1 * MiB, 0, 1}, {"up", "tunnel", 0, 1 * MiB, 1}, {"down", "tunnel", 2 * MiB, 1 * MiB, 3}} {
+		add(x.dir, x.mode, x.rl, x.wl, x.conns, 2, 0)
+		p[len(p)-1].ProxyProto = true
+	}
 	// many connections behind a small limit: the backlog of post-paid calls grows far beyond any
 	// plausible per-call patience; very low limits; a transfer in flight while the listener is closed
 	// (graceful shutdown closes listeners first).  Observed for a fixed window, then abandoned.
@@ -238,15 +250,16 @@ func originHandler() http.Handler {
 const e2eDeadline = 25 * time.Second
 
 type rig struct {
-	proxy     *forwarder.HTTPProxy
-	proxyAddr string
-	origin    *http.Server
-	originLn  net.Listener
-	cancel    context.CancelFunc
-	done      chan struct{}
+	proxyProto bool
+	proxy      *forwarder.HTTPProxy
+	proxyAddr  string
+	origin     *http.Server
+	originLn   net.Listener
+	cancel     context.CancelFunc
+	done       chan struct{}
 }
 
-func newRig(rl, wl int64) (*rig, error) {
+func newRig(rl, wl int64, proxyProto bool) (*rig, error) {
 	ln, err := net.Listen("tcp", "127.0.0.1:0")
 	if err != nil {
 		return nil, err
@@ -259,6 +272,9 @@ func newRig(rl, wl int64) (*rig, error) {
 	cfg.ProxyLocalhost = forwarder.AllowProxyLocalhost
 	cfg.ReadLimit = forwarder.SizeSuffix(rl)
 	cfg.WriteLimit = forwarder.SizeSuffix(wl)
+	if proxyProto {
+		cfg.ProxyProtocolConfig = forwarder.DefaultProxyProtocolConfig()
+	}
 	tr, err := forwarder.NewHTTPTransport(forwarder.DefaultHTTPTransportConfig())
 	if err != nil {
 		return nil, err
@@ -268,7 +284,7 @@ func newRig(rl, wl int64) (*rig, error) {
 		return nil, err
 	}
 	ctx, cancel := context.WithCancel(context.Background())
-	rg := &rig{proxy: p, origin: srv, originLn: ln, cancel: cancel, done: make(chan struct{})}
+	rg := &rig{proxyProto: proxyProto, proxy: p, origin: srv, originLn: ln, cancel: cancel, done: make(chan struct{})}
 	go func() { p.Run(ctx); close(rg.done) }()
 	addrs, _ := p.Addr()
 	rg.proxyAddr = addrs[0]
@@ -292,6 +308,10 @@ func (r *rig) openConn(mode string) (net.Conn, *bufio.Reader, error) {
 		return nil, nil, err
 	}
 	c.SetDeadline(time.Now().Add(e2eDeadline))
+	if r.proxyProto {
+		la, ra := c.LocalAddr().(*net.TCPAddr), c.RemoteAddr().(*net.TCPAddr)
+		fmt.Fprintf(c, "PROXY TCP4 127.0.0.1 127.0.0.1 %d %d\r\n", la.Port, ra.Port)
+	}
 	br := bufio.NewReaderSize(c, 32768)
 	if mode == "tunnel" {
 		oa := r.originLn.Addr().String()
@@ -504,7 +524,7 @@ func runE2E(specs []e2eSpec) []e2eResult {
 			defer wg.Done()
 			defer func() { <-sem }()
 			first := specs[idx[0]]
-			rg, err := newRig(first.RL, first.WL)
+			rg, err := newRig(first.RL, first.WL, first.ProxyProto)
 			if err != nil {
 				for _, i := range idx {
 					results[i] = e2eResult{Spec: specs[i], Err: "rig: " + err.Error()}
